@@ -481,8 +481,10 @@ class D_:
             init = "(late %s)" % ty
         return ["(var %s %s %s %s)" % (n.lower(), cls, q, init) for n in ns], [], lx
 
-    def block(self):
+    def block(self, func=False):
         r = self.rng.random()
+        if func and 0.5 <= r < 0.6:
+            r = 0.9                    # no VAR_EXTERNAL in a function
         vs, es, lx = [], [], []
         if r < 0.25:
             q = self.rng.choice(["unspec", "unspec", "retain", "nonretain"])
@@ -520,9 +522,9 @@ class D_:
                 lx += [ident(n), sym(":")] + tl + [sym(";")]
                 vs.append("(var %s external %s (simple %s -))" % (n.lower(), q, ty))
         else:
-            q = self.rng.choice(["unspec", "unspec", "const", "retain", "nonretain"])
+            q = self.rng.choice(["unspec", "unspec", "const", "retain", "nonretain"] if not func else ["unspec", "unspec", "const"])
             lx = [kw("VAR")] + ({"const": [kw("CONSTANT")], "retain": [kw("RETAIN")], "nonretain": [kw("NON_RETAIN")]}.get(q, []))
-            for _ in range(self.rng.choice([0, 1, 2, 3])):
+            for _ in range(self.rng.choice([0, 1, 2, 3] if not func else [1, 1, 2, 3])):      # a function's VAR needs a declaration
                 v, _, l = self.init_decl("var", q)
                 vs += v
                 lx += l + [sym(";")]
@@ -531,10 +533,10 @@ class D_:
         lx.append(kw("END_VAR"))
         return vs, es, lx
 
-    def blocks(self):
+    def blocks(self, func=False):
         vs, es, lx = [], [], []
         for _ in range(self.rng.choice([0, 1, 1, 2, 3])):
-            v, e, l = self.block()
+            v, e, l = self.block(func)
             vs += v
             es += e
             lx += l
@@ -792,6 +794,18 @@ def lib2_elements(rng, depth=1):
             k += len(o) + 1
             els += o
             lx += l
+        elif rng.random() < 0.35:
+            # FUNCTION name : type  blocks  statements (at least a ';')  END_FUNCTION
+            d = D_(rng)
+            ty, tl, _ = d.typ()
+            vs, es, dl = d.blocks(func=True)
+            g = G_(rng, depth=depth)
+            ss, sl = g.stmts(0, 0)
+            if not sl:
+                sl = [sym(";")]
+            name = "fn%d" % i
+            lx += [kw("FUNCTION"), ident(name), sym(":")] + tl + dl + sl + [kw("END_FUNCTION")]
+            els.append("(function %s %s (%s) (%s) (%s))" % (name, ty, " ".join(vs), " ".join(es), " ".join(ss)))
         else:
             us, ul = lib_units(rng, depth=depth)
             # lib_units names its units u0..; rename by position to keep names distinct
@@ -877,6 +891,19 @@ def sx_elements_of_library(tree):
                 if s is None:
                     return None
                 out.append(s)
+            elif el[0] == "FunctionDeclaration":
+                fn = el[1]
+                vs = [sx_vardecl(v) for v in fn["variables"]]
+                es = []
+                for e in fn["edge_variables"]:
+                    b = e[1]
+                    es.append("(edge %s %s %s)" % (_name(b["identifier"]).lower(), {"rising": "r", "falling": "f"}[str(b["direction"]).lower()],
+                                                   _QUAL[str(b["qualifier"]).lower()]))
+                st = sx_list(fn["body"])
+                rt = _tyname(fn["return_type"])
+                if st is None or rt is None or any(v is None for v in vs):
+                    return None
+                out.append("(function %s %s (%s) (%s) %s)" % (_name(fn["name"]).lower(), rt, " ".join(vs), " ".join(es), st))
             else:
                 u = sx_units_of_library(("Library", {"elements": [el]}))
                 if u is None:
